@@ -8,16 +8,16 @@ import (
 
 func init() {
 	register(&Rule{
-		Name: "JSONSTRRAW",
-		Doc: "in the binary->JSON converters a string or byte slice read from the message (result of BinaryProtocol.ReadString*/ReadBinary/ReadBytes of either protocol) never reaches the JSON output through a raw append(out, s...): it must pass json.EncodeString / NoQuote / EncodeBaniry, which escape quotes, backslashes and control characters (map keys included)",
+		Name:     "JSONSTRRAW",
+		Doc:      "in the binary->JSON converters a string or byte slice read from the message (result of BinaryProtocol.ReadString*/ReadBinary/ReadBytes of either protocol) never reaches the JSON output through a raw append(out, s...): it must pass json.EncodeString / NoQuote / EncodeBaniry, which escape quotes, backslashes and control characters (map keys included)",
 		Configs:  "NP",
 		Floor:    map[string]int{"N": 8, "P": 8},
 		Controls: 1,
 		Run:      runJSONStrRaw,
 	})
 	register(&Rule{
-		Name: "ERRMISMATCH",
-		Doc: "an error returned by a fallible call is judged by its OWN nil test: if the value is never compared with nil, and its only uses (wrapping / returning) sit inside a branch guarded by the nil test of a DIFFERENT error variable, the check tests the wrong variable and the failure is silently ignored",
+		Name:     "ERRMISMATCH",
+		Doc:      "an error returned by a fallible call is judged by its OWN nil test: if the value is never compared with nil, and its only uses (wrapping / returning) sit inside a branch guarded by the nil test of a DIFFERENT error variable, the check tests the wrong variable and the failure is silently ignored",
 		Configs:  "NP",
 		Floor:    map[string]int{"N": 300, "P": 300},
 		Controls: 1,
